@@ -330,6 +330,20 @@ fn run_object_laws(ops: &[Op]) {
     if (b == a) != (a == b) { fail("object_laws", ops, last, "equality is not symmetric".into()); }
     if hash_of(&a) != hash_of(&b) { fail("object_laws", ops, last, "equal tables hash differently".into()); }
     if a < b || a > b { fail("object_laws", ops, last, "equal tables are ordered".into()); }
+    // the same entries inserted in reverse order: whatever `==` says about them, equal must imply equal hashes
+    {
+        let ints: Vec<(i64, i64)> = { let mut m: Vec<(i64, i64)> = vec![]; for &(op, k2, v2) in ops.iter() { if op % 3 != 0 { if let Some(e) = m.iter_mut().find(|e| e.0 == k2 as i64) { e.1 = v2 } else { m.push((k2 as i64, v2)) } } } m };
+        if ints.len() >= 2 {
+            let mut g5 = vm.init_table().unwrap();
+            for (k2, v2) in ints.iter() { g5.as_table_mut().unwrap().insert(Value::Integer(*k2), Value::Integer(*v2)).unwrap(); }
+            let mut g6 = vm.init_table().unwrap();
+            for (k2, v2) in ints.iter().rev() { g6.as_table_mut().unwrap().insert(Value::Integer(*k2), Value::Integer(*v2)).unwrap(); }
+            let e: Value = Value::from(g5);
+            let f: Value = Value::from(g6);
+            if e == f && hash_of(&e) != hash_of(&f) { fail("object_laws", ops, last, "tables that compare equal hash differently (same entries, different insertion order)".into()); }
+            if (e == f) != (f == e) { fail("object_laws", ops, last, "equality is not symmetric (different insertion order)".into()); }
+        }
+    }
     // a third table that differs from the first in one value only: whatever `==` says, equal must imply equal hashes
     if let Some(&(_, k, v)) = ops.iter().rev().find(|o| o.0 % 3 != 0) {
         let mut g3 = vm.init_table().unwrap();
